@@ -1,7 +1,7 @@
 (* C06 - property theorems only.  `teststat` is the transcription of pyhf.infer.test_statistics with the two
    fits as arbitrary functions; `ratio mu e` is the raw difference of the two fitted 2*NLL values. *)
 From Coq Require Import Reals List.
-Require Import PV.Num PV.TestStat.
+Require Import PV.Num PV.TestStat PV.gen.TestStatGen PV.TieTestStat.
 Import ListNotations.
 Local Open Scope R_scope.
 
@@ -86,6 +86,49 @@ Theorem C06_q_zero_at_best_fit_counting : forall n s b lo hi C, 0 <= n -> 0 < s 
   value_of RNum (teststat RNum unit (cfit n s b lo hi C) (cfixed n s b C) (fun _ => Some 0%nat) (fun _ => lo) st (muhat_c n s b lo hi) tt) = Some 0.
 Proof. exact q_zero_at_best_fit_counting. Qed.
 
+(* --- tie to the source: pyhf/infer/test_statistics.py is translated to PV.gen.TestStatGen on every run (harness/props/c06.py:
+   extract); the translated functions ARE the transcription the theorems above are about.  gen_f is f(.., return_fitted_pars=True),
+   gen_f_value is f(.., return_fitted_pars=False). --- *)
+Theorem C06_source_is_model_tmu_like : forall (N : Num) Env fit fixed_poi_fit poi_index poi_lower mu (e : Env),
+  gen_tmu_like N Env fit fixed_poi_fit poi_index poi_lower mu e = tmu_like N Env fit fixed_poi_fit mu e.
+Proof. exact tie_tmu_like. Qed.
+Theorem C06_source_is_model_qmu_like : forall (N : Num) Env fit fixed_poi_fit poi_index poi_lower mu (e : Env),
+  gen_qmu_like N Env fit fixed_poi_fit poi_index poi_lower mu e = qmu_like N Env fit fixed_poi_fit poi_index mu e.
+Proof. exact tie_qmu_like. Qed.
+Theorem C06_source_is_model_qmu : forall (N : Num) Env fit fixed_poi_fit poi_index poi_lower mu (e : Env),
+  gen_qmu N Env fit fixed_poi_fit poi_index poi_lower mu e = qmu N Env fit fixed_poi_fit poi_index poi_lower mu e.
+Proof. exact tie_qmu. Qed.
+Theorem C06_source_is_model_qmu_tilde : forall (N : Num) Env fit fixed_poi_fit poi_index poi_lower mu (e : Env),
+  gen_qmu_tilde N Env fit fixed_poi_fit poi_index poi_lower mu e = qmu_tilde N Env fit fixed_poi_fit poi_index poi_lower mu e.
+Proof. exact tie_qmu_tilde. Qed.
+Theorem C06_source_is_model_tmu : forall (N : Num) Env fit fixed_poi_fit poi_index poi_lower mu (e : Env),
+  gen_tmu N Env fit fixed_poi_fit poi_index poi_lower mu e = tmu N Env fit fixed_poi_fit poi_index poi_lower mu e.
+Proof. exact tie_tmu. Qed.
+Theorem C06_source_is_model_tmu_tilde : forall (N : Num) Env fit fixed_poi_fit poi_index poi_lower mu (e : Env),
+  gen_tmu_tilde N Env fit fixed_poi_fit poi_index poi_lower mu e = tmu_tilde N Env fit fixed_poi_fit poi_index poi_lower mu e.
+Proof. exact tie_tmu_tilde. Qed.
+(* q0: the source sets mu = 0.0 only `if mu != 0.0`; equal to the model's unconditional mu := 0 when `==` of the number
+   instance decides equality, which holds for the executed rationals and for the reals *)
+Theorem C06_source_is_model_q0 : forall (N : Num) Env fit fixed_poi_fit poi_index poi_lower, neqb_sound N -> forall mu (e : Env),
+  gen_q0 N Env fit fixed_poi_fit poi_index poi_lower mu e = q0 N Env fit fixed_poi_fit poi_index mu e.
+Proof. exact tie_q0. Qed.
+Theorem C06_source_is_model_q0_rationals : forall Env fit fixed_poi_fit poi_index poi_lower mu (e : Env),
+  gen_q0 QcNum Env fit fixed_poi_fit poi_index poi_lower mu e = q0 QcNum Env fit fixed_poi_fit poi_index mu e.
+Proof. exact tie_q0_Qc. Qed.
+Theorem C06_source_is_model_q0_reals : forall Env fit fixed_poi_fit poi_index poi_lower mu (e : Env),
+  gen_q0 RNum Env fit fixed_poi_fit poi_index poi_lower mu e = q0 RNum Env fit fixed_poi_fit poi_index mu e.
+Proof. exact tie_q0_R. Qed.
+(* the calls without return_fitted_pars return the first component, with the same exception and warnings *)
+Theorem C06_source_is_model_value_only : forall (N : Num) Env fit fixed_poi_fit poi_index poi_lower mu (e : Env),
+  gen_tmu_like_value N Env fit fixed_poi_fit poi_index poi_lower mu e = fst (tmu_like N Env fit fixed_poi_fit mu e) /\
+  gen_qmu_like_value N Env fit fixed_poi_fit poi_index poi_lower mu e = fst (qmu_like N Env fit fixed_poi_fit poi_index mu e) /\
+  gen_qmu_value N Env fit fixed_poi_fit poi_index poi_lower mu e = value_only N (qmu N Env fit fixed_poi_fit poi_index poi_lower mu e) /\
+  gen_qmu_tilde_value N Env fit fixed_poi_fit poi_index poi_lower mu e = value_only N (qmu_tilde N Env fit fixed_poi_fit poi_index poi_lower mu e) /\
+  gen_tmu_value N Env fit fixed_poi_fit poi_index poi_lower mu e = value_only N (tmu N Env fit fixed_poi_fit poi_index poi_lower mu e) /\
+  gen_tmu_tilde_value N Env fit fixed_poi_fit poi_index poi_lower mu e = value_only N (tmu_tilde N Env fit fixed_poi_fit poi_index poi_lower mu e) /\
+  (neqb_sound N -> gen_q0_value N Env fit fixed_poi_fit poi_index poi_lower mu e = value_only N (q0 N Env fit fixed_poi_fit poi_index mu e)).
+Proof. exact tie_value_only_all. Qed.
+
 Print Assumptions C06_value_cases.
 Print Assumptions C06_teststat_nonneg.
 Print Assumptions C06_pars_are_the_fits.
@@ -99,3 +142,13 @@ Print Assumptions C06_no_poi_refused.
 Print Assumptions C06_counting_argmin.
 Print Assumptions C06_q_closed_form_counting.
 Print Assumptions C06_q_zero_at_best_fit_counting.
+Print Assumptions C06_source_is_model_tmu_like.
+Print Assumptions C06_source_is_model_qmu_like.
+Print Assumptions C06_source_is_model_qmu.
+Print Assumptions C06_source_is_model_qmu_tilde.
+Print Assumptions C06_source_is_model_tmu.
+Print Assumptions C06_source_is_model_tmu_tilde.
+Print Assumptions C06_source_is_model_q0.
+Print Assumptions C06_source_is_model_q0_rationals.
+Print Assumptions C06_source_is_model_q0_reals.
+Print Assumptions C06_source_is_model_value_only.
